@@ -1146,8 +1146,10 @@ class NNDescent:
                 (self._raw_data.shape[0], self._raw_data.shape[0]), dtype=np.float32
             )
 
-            # Preserve any distance 0 points
-            diversified_data[diversified_data == 0.0] = FLOAT32_EPS
+            # Preserve any distance 0 points (surrogate distances of near-identical
+            # points can round slightly below zero; the symmetrisation below would
+            # drop such an edge, since a missing entry counts as 0)
+            diversified_data[diversified_data <= 0.0] = FLOAT32_EPS
 
             self._search_graph.row = np.repeat(
                 np.arange(diversified_rows.shape[0], dtype=np.int32),
